@@ -107,7 +107,7 @@ def finish(k, scn, viol, extra=None):
     return res
 
 
-def quiesce(k, env, cap=240.0, extra=0.0):
+def quiesce(k, env, cap=600.0, extra=0.0):
     """Block the calling (harness) thread until the line is quiet *and the host has caught up*.
 
     A fixed sleep is not enough: injected thread stalls can delay the read thread - or the
@@ -120,6 +120,11 @@ def quiesce(k, env, cap=240.0, extra=0.0):
     fw, link = env["fw"], env["link"]
     t0 = k.now
     while k.now - t0 < cap:
+        if k.now > 0.7 * (k.max_time + min(k.stall_total, 1000.0)):
+            break_unsettled = True       # never run the kernel into its own time cap while waiting
+            k.probe("quiesce.cap_reached")
+            k.unsettled = True
+            return k.now - t0
         k.sleep(0.25)
         port = env.get("port")
         unread = bool(getattr(port, "rxq", None)) or bool(getattr(port, "rxbuf", None))
@@ -136,6 +141,7 @@ def quiesce(k, env, cap=240.0, extra=0.0):
             break
     else:
         k.probe("quiesce.cap_reached")
+        k.unsettled = True      # the lane treats such a run as inconclusive
     if extra:
         k.sleep(extra)
     return k.now - t0
